@@ -1111,7 +1111,7 @@ func (s *sim) disconnectStorm() {
 	wg.Wait()
 	s.r.Fault("concurrent_disconnects")
 	s.noteCause("disconnect-storm")
-	s.endStep("%d concurrent Disconnect calls", n+1)
+	s.endStep("concurrent Disconnect calls") // (how many depends on GOMAXPROCS: not in the log)
 	if panicked != "" {
 		s.r.Violate(prop, "O5-closed-once", "", "concurrent Disconnect calls panicked: %s", panicked)
 	}
